@@ -17,7 +17,7 @@ func init() {
 		ID:    "C06",
 		Title: "DISTINCT removes exactly the duplicates; UNION [ALL] concatenates [and dedups]",
 		Level: "exploration",
-		Rule: "DISTINCT over FUSE(obj) (columns the select list does not name). tables of 250..1050 rows; statements built once and executed three times; union branches that select background calls; windows over DISTINCT / UNION incl. the all-rows-from-m idiom; 0 and -0. chains may contain parenthesised branches with their own LIMIT/OFFSET (plain, DISTINCT, or a nested union). value pools include strings that are not valid UTF-8; union chains may read their tables through CTEs of the statement. each case = duplication-heavy tables whose values include look-alikes under textual fingerprints (\"1\" vs 1, \"x b:y\" vs two columns, \"<nil>\" vs NULL, \"[1 2]\" vs an array) x either SELECT DISTINCT over 1..3 columns or * (with optional WHERE), " +
+		Rule: "dISTINCT and UNION under an ORDER BY (same multiset); doubles that differ in their last digits only. DISTINCT over FUSE(obj) (columns the select list does not name). tables of 250..1050 rows; statements built once and executed three times; union branches that select background calls; windows over DISTINCT / UNION incl. the all-rows-from-m idiom; 0 and -0. chains may contain parenthesised branches with their own LIMIT/OFFSET (plain, DISTINCT, or a nested union). value pools include strings that are not valid UTF-8; union chains may read their tables through CTEs of the statement. each case = duplication-heavy tables whose values include look-alikes under textual fingerprints (\"1\" vs 1, \"x b:y\" vs two columns, \"<nil>\" vs NULL, \"[1 2]\" vs an array) x either SELECT DISTINCT over 1..3 columns or * (with optional WHERE), " +
 			"or a chain of 2..4 branches with every mix of UNION / UNION ALL and an optional trailing LIMIT [OFFSET]. Oracle (metamorphic over real executions): DISTINCT output = first-occurrence subsequence of the non-DISTINCT output under deep typed equality; " +
 			"a chain = left-associated fold of the branches' standalone outputs (concatenate; dedup after each plain UNION); LIMIT applies to the combined sequence. Non-trivial = the dedup removes at least one row and keeps at least two, or a chain whose combined result has >= 3 rows; distinct = distinct (tables, SQL).",
 		Assumptions: []string{
